@@ -18,7 +18,7 @@ from harness import gbnf_common as G
 from harness.gbnf_check import check as py_check
 
 PROJECT = "gbnf"
-PROPS = ["Octave.Lemmas.GenFacts", "Octave.Props.C12"]
+PROPS = ["Octave.Lemmas.GenFacts", "Octave.Props.C12", "Octave.Props.C12strict"]
 F = "octave_mcp/core/gbnf_compiler.py"
 ANCHORS = [(F, "GBNFCompiler._sanitize_rule_name"), (F, "GBNFCompiler._escape_literal"), (F, "GBNFCompiler.compile_constraint"),
            (F, "GBNFCompiler._compile_required"), (F, "GBNFCompiler._compile_optional"), (F, "GBNFCompiler._compile_enum"),
